@@ -34,7 +34,7 @@ TRUSTED = ["rustc nightly MIR + const evaluation", "mirfacts extractor", "rules/
 
 TABLE = os.path.join(VERIF, "tables", "c18_panics.txt")
 _FWD_PLUMBING = r"UpgradeableConnection::<'_, I, S, E>::into_owned$|graceful::GracefulShutdown::watch$|^tokio::spawn$|mem::drop$"
-_NEG_PLUMBING = r"TryFutureExt::map_ok$|TryFutureExt::map_err$|FuturesUnordered::<Fut>::push$|FutureExt::boxed$|boxed::Box::<T>::pin$"
+_NEG_PLUMBING = r"TryFutureExt::map_ok$|TryFutureExt::map_err$|FutureExt::map$|TryFutureExt::and_then$|FutureExt::inspect$|TryFutureExt::inspect_(ok|err)$|FuturesUnordered::<Fut>::push$|FutureExt::boxed$|boxed::Box::<T>::pin$"
 
 
 def _stream_coroutine(ctx, R):
@@ -273,7 +273,9 @@ def r3_errors_become_responses(ctx):
     ok = bool(irs) and slice_has_call_at(r0, irs[0][0]) and r0.touches_local(aw["dest"])
     ctx.check(R, "both-arms-feed-the-returned-response", ok, "the returned Ok(..) carries into_response(error) on the Err edge and the handler's response on the Ok edge: %s" % ok, (wb, sbb))
     for nm, e in (("ok", okb), ("err", errb)):
-        div = [b for b in wb.reachable(e, avoid=[sbb]) if wb.blocks[b]["term"]["t"] == "call" and "to" not in wb.blocks[b]["term"]]
+        # (release configuration: the panic of a `debug_assert!` lies in a block that does not exist there)
+        dbg = wb.debug_only_blocks()
+        div = [b for b in wb.reachable(e, avoid=[sbb]) if b not in dbg and wb.blocks[b]["term"]["t"] == "call" and "to" not in wb.blocks[b]["term"]]
         ret = any(wb.blocks[b]["term"]["t"] == "return" for b in wb.reachable(e))
         ctx.check(R, "%s-arm-reaches-the-return" % nm, not div and ret, "diverging calls after the %s edge: %d; return reachable: %s" % (nm, len(div), ret), (wb, e))
     # the error renderer itself returns a Response, never a Result
@@ -563,4 +565,4 @@ SELFTEST = [
 ]
 
 LEVEL_TEXT += ' Also (R5): on the request path no buffer is pre-sized from a length the client merely declares (size_hint / Content-Length).'
-LEVEL_TEXT += " Also (R7 = C10.R9): an unreadable Content-Type value is refused, not defaulted. Also (R1): every pause on the error path of tcp.accept() is bounded by a constant; (R8 = C03.R1): a request path whose escapes are not UTF-8 becomes the 400 of the strict decode."
+LEVEL_TEXT += " Also (R7 = C10.R9): an unreadable Content-Type value is refused, not defaulted. Also (R1): every pause on the error path of tcp.accept() is bounded by a constant; (R8 = C03.R1): a request path whose escapes are not UTF-8 becomes the 400 of the strict decode. Also (R1): the TLS stream's accept branch carries no precondition and the only pause on the accept path is the one after a failed accept(2)."
